@@ -50,6 +50,10 @@ type ConcCase struct {
 	// PeerViolation: the peer's stream ends with a framing violation (RSV2)
 	// instead of a close; the reader must answer with a 1002 close.
 	PeerViolation bool `json:"peer_violation,omitempty"`
+	// PeerBig: the reader has SetReadLimit(4) and the peer's stream ends with
+	// a 10-byte message: the reader answers with a 1009 close (from the
+	// reader's goroutine, while the writer may be in the middle of a message).
+	PeerBig bool `json:"peer_big,omitempty"`
 	// ReaderLast: the reader is started only after every write-side actor has
 	// returned, so nothing competes with its replies for the connection.
 	ReaderLast bool `json:"reader_last,omitempty"`
@@ -77,8 +81,13 @@ func genConcCase(t *rapid.T, free bool) ConcCase {
 		c.Ctl = append(c.Ctl, a)
 	}
 	c.Pings = rapid.SliceOfN(rapid.IntRange(4, 125), 0, 3).Draw(t, "pings")
-	if rapid.IntRange(0, 3).Draw(t, "peerclose") == 0 {
+	switch rapid.IntRange(0, 5).Draw(t, "peerclose") {
+	case 0:
 		c.PeerClose = rapid.SampledFrom([]int{1000, 1001, 4000}).Draw(t, "peerclose_code")
+	case 1:
+		c.PeerBig = true
+	case 2:
+		c.PeerViolation = true
 	}
 	nact := 2 + len(c.Ctl)
 	c.Sched = rapid.SliceOfN(rapid.Custom(func(t *rapid.T) SAct {
@@ -169,6 +178,8 @@ func concInput(c ConcCase) []byte {
 	}
 	if c.PeerViolation {
 		in = wsref.AppendFrame(in, wsref.Frame{Fin: true, Rsv2: true, Opcode: wsref.OpText, Masked: masked, Key: [4]byte{6, 6, 6, 6}, Payload: []byte("x")})
+	} else if c.PeerBig {
+		in = wsref.AppendFrame(in, wsref.Frame{Fin: true, Opcode: wsref.OpBinary, Masked: masked, Key: [4]byte{5, 5, 5, 5}, Payload: []byte("0123456789")})
 	} else if c.PeerClose != 0 {
 		in = wsref.AppendFrame(in, wsref.Frame{Fin: true, Opcode: wsref.OpClose, Masked: masked, Key: [4]byte{7, 7, 7, 7}, Payload: wsref.CloseBody(c.PeerClose, "")})
 	}
@@ -243,6 +254,9 @@ func runConcOwned(c ConcCase) (*concRun, error) {
 		return nil, err
 	}
 	steps, _ := steerWriteProgram("C11", c.W, c.Steps)
+	if c.PeerBig && !c.PeerViolation {
+		conn.SetReadLimit(4)
+	}
 	acts := r.actors(c, conn, base, steps)
 	started := make([]bool, len(acts))
 	start := func(i int) {
@@ -379,6 +393,9 @@ func runConcFree(c ConcCase) (*concRun, error) {
 		return nil, err
 	}
 	steps, _ := steerWriteProgram("C11", c.W, c.Steps)
+	if c.PeerBig && !c.PeerViolation {
+		conn.SetReadLimit(4)
+	}
 	acts := r.actors(c, conn, base, steps)
 	var wg sync.WaitGroup
 	order := make([]int, 0, len(acts))
@@ -560,14 +577,18 @@ func judgeConc(c ConcCase, r *concRun, o *Obs) error {
 	for i, n := range c.Pings {
 		may = append(may, want{pingPayload(i, n), wsref.OpPong})
 	}
-	if c.PeerClose != 0 && !c.PeerViolation {
+	if c.PeerClose != 0 && !c.PeerViolation && !c.PeerBig {
 		may = append(may, want{wsref.CloseBody(c.PeerClose, ""), wsref.OpClose})
 	}
-	if c.PeerViolation {
-		// the automatic close for the violation: status 1002, any reason
+	if c.PeerViolation || c.PeerBig {
+		// the automatic close for the violation: status 1002 (read limit: 1009), any reason
+		autoCode := 1002
+		if !c.PeerViolation {
+			autoCode = 1009
+		}
 		saw1002 := false
 		for i, f := range frames {
-			if f.Opcode == wsref.OpClose && len(f.Payload) >= 2 && int(f.Payload[0])<<8|int(f.Payload[1]) == 1002 {
+			if f.Opcode == wsref.OpClose && len(f.Payload) >= 2 && int(f.Payload[0])<<8|int(f.Payload[1]) == autoCode {
 				may = append(may, want{f.Payload, wsref.OpClose})
 				saw1002 = true
 				_ = i
@@ -576,7 +597,7 @@ func judgeConc(c ConcCase, r *concRun, o *Obs) error {
 		}
 		appCloseSent := false
 		for _, f := range frames {
-			if f.Opcode == wsref.OpClose && !(len(f.Payload) >= 2 && int(f.Payload[0])<<8|int(f.Payload[1]) == 1002) {
+			if f.Opcode == wsref.OpClose && !(len(f.Payload) >= 2 && int(f.Payload[0])<<8|int(f.Payload[1]) == autoCode) {
 				appCloseSent = true
 			}
 		}
@@ -587,7 +608,7 @@ func judgeConc(c ConcCase, r *concRun, o *Obs) error {
 					timeouts++
 				}
 			}
-			return fmt.Errorf("the peer's framing violation was read after every writer had finished (%d earlier WriteControl timeouts), yet no close frame with status 1002 was sent", timeouts)
+			return fmt.Errorf("the peer's framing violation / over-limit message was read after every writer had finished (%d earlier WriteControl timeouts), yet no close frame with status %d was sent", timeouts, autoCode)
 		}
 	}
 
